@@ -302,6 +302,15 @@ macro_rules! with_stack {
                 };
                 (rec.log, r)
             }
+            "replace_nofinish" => {
+                let mut rec = Rec::<true>::new($fail);
+                let r = {
+                    let mut h = Replace::new(NoFinishHook::new(&mut rec));
+                    let $d = &mut h;
+                    $body
+                };
+                (rec.log, r)
+            }
             "replace_norep" => {
                 let mut rec = Rec::<false>::new($fail);
                 let r = {
